@@ -99,6 +99,14 @@ def shapes():
     S["not_(position.x == 1)"] = lambda o: (p := let(Position, o["Position"]), not_(p.x == 1.0))
     S["not_(x==1 and y==2)"] = lambda o: (p := let(Position, o["Position"]), not_(and_(p.x == 1.0, p.y == 2.0)))
     S["exists(q, q.x > p.x)"] = lambda o: (p := let(Position, o["Position"]), exists(q := let(Position, o["Position"]), q.x > p.x))
+    # string containment: in memory this is Python's exact (case-sensitive, no wildcards) substring test
+    S["contains('b0 B1 b_', body.name) (literal contains attribute)"] = lambda o: (b := let(Body, o["Body"]), contains("b0 B1 b_", b.name))
+    S["contains(body.name, 'b') (attribute contains literal)"] = lambda o: (b := let(Body, o["Body"]), contains(b.name, "b"))
+    S["contains(body.name, 'B') (attribute contains literal, other case)"] = lambda o: (b := let(Body, o["Body"]), contains(b.name, "B"))
+    S["contains(body.name, '_') (attribute contains a LIKE wildcard)"] = lambda o: (b := let(Body, o["Body"]), contains(b.name, "_"))
+    S["contains(body.name, '') (empty text)"] = lambda o: (b := let(Body, o["Body"]), contains(b.name, ""))
+    S["not contains(body.name, '1')"] = lambda o: (b := let(Body, o["Body"]), not_(contains(b.name, "1")))
+    S["in_(body.name, 'b0 B1') (attribute in literal string)"] = lambda o: (b := let(Body, o["Body"]), in_(b.name, "b0 B1"))
     S["no condition"] = lambda o: (p := let(Position, o["Position"]), None)
     return S
 
